@@ -199,7 +199,12 @@ func renderVsys(v panos.VerifVsys, displayName string) string {
 	}
 	b.WriteString("<rulebase><security><rules>")
 	for _, r := range v.Rules {
-		fmt.Fprintf(&b, `<entry name="%s">%s%s%s%s</entry>`, xmlEsc(r.Name), r.Hdr,
+		// the hook prints the emptied lists as empty elements inside Hdr: not part of the rule
+		hdr := r.Hdr
+		for _, e := range []string{"<source></source>", "<destination></destination>", "<service></service>"} {
+			hdr = strings.ReplaceAll(hdr, e, "")
+		}
+		fmt.Fprintf(&b, `<entry name="%s">%s%s%s%s</entry>`, xmlEsc(r.Name), hdr,
 			members("source", r.Src), members("destination", r.Dst), members("service", r.Srv))
 	}
 	b.WriteString("</rules></security></rulebase><address>")
